@@ -33,7 +33,7 @@ CLAIMED = {
              design="5/C09", technique="Lean 4 proof over the gc model + differential execution (clock at expiry ±1 ms, per-task gc release)"),
  "C20": dict(text="Theorems: importing any permutation of a reachable store's frames into an empty store yields the same stored frames (ids, order, fields) and the same usable "
              "contexts, hence identical reads/gets/heads; import order irrelevant; re-import idempotent; import keeps id and id-position; NUL topic rejected whole; import is silent.",
-             design="5/C20", technique="Lean 4 proof (permutation invariance via sorted-list extensionality) + differential execution incl. export→permuted re-import round trips"),
+             design="5/C20", technique="Lean 4 proof (permutation invariance via sorted-list extensionality) + differential execution incl. export→permuted re-import round trips, at the store level and between two servers over HTTP"),
 
  "C02": dict(text="Theorems over the append/follow LTS (any number of writers, any interleaving at the granularity of id-assignment / commit / broadcast / subscribe / scan / live steps): "
              "the stored stream only grows at its end by frames with greater ids; broadcasts are in id order; a last-id poller receives exactly the frames appended since its last poll; "
